@@ -728,6 +728,10 @@ var paramPrefixes = []string{"/:tenant", "/:t", "/:t/api", "/api/:id", ":x", "/:
 var syntaxPrefixes = []string{"/*", "/files/*", "/f/+", "*", "/api/*", "/*/in",
 	"/api/:v?", "/:lang?", "/v1/:x?/y",
 	"/t/:id<int>", "/:n<minLen(2)>", "/u/:name<alpha>", "/:id<int>", "/r/:k<range(1,9)>", "/:w<maxLen(3)>/api", "/b/:ok<bool>",
+	// constraints whose verdict depends on letter case: getMatch checks them on the path as sent,
+	// not on the lower-cased detection path
+	"/:tenant<regex(^[A-Z]+$)>", "/r/:w<regex(^[a-z]+$)>", "/:n<regex(^[A-Z][a-z]*$)>/x", "/:org<regex(^[A-Z]+$)>/api",
+	"/d/:day<datetime(2006-01-02T15)>", "/:flag<bool>",
 	"/v:ver", "/f-:n", "/:a-:b", "/img.:ext", "/api/v:n",
 	"/a\\:b", "/v\\*", "/x\\+y/z", "/a\\-b", "/d\\.e/f"}
 var groupPrefixes = []string{"/g", "/api", "/", "/v1/", "g", "/G", "", "/api/v2"}
@@ -874,9 +878,29 @@ func paramValue(r *gen.Rand, spec string) string {
 		return gen.Pick(r, []string{"0", "10", "x"})
 	case strings.Contains(spec, "<bool>"):
 		if good {
-			return gen.Pick(r, []string{"true", "0", "F"})
+			return gen.Pick(r, []string{"true", "0", "F", "TRUE", "True"})
 		}
-		return "yes"
+		return gen.Pick(r, []string{"yes", "tRUE", "fALSE", "TrUe"}) // the last three are literals once lower-cased
+	case strings.Contains(spec, "<regex(^[A-Z]+$)>"):
+		if good {
+			return gen.Pick(r, []string{"ACME", "X", "API"})
+		}
+		return gen.Pick(r, []string{"acme", "Acme", "A1"})
+	case strings.Contains(spec, "<regex(^[a-z]+$)>"):
+		if good {
+			return gen.Pick(r, []string{"acme", "x"})
+		}
+		return gen.Pick(r, []string{"ACME", "Acme", "a1"})
+	case strings.Contains(spec, "<regex(^[A-Z][a-z]*$)>"):
+		if good {
+			return gen.Pick(r, []string{"Acme", "A", "Bob"})
+		}
+		return gen.Pick(r, []string{"acme", "ACME", "aCME"})
+	case strings.Contains(spec, "<datetime(2006-01-02T15)>"):
+		if good {
+			return gen.Pick(r, []string{"2024-01-02T10", "1999-12-31T23", "2024-02-29T00"})
+		}
+		return gen.Pick(r, []string{"2024-01-02t10", "2024-13-02T10", "2023-02-29T10", "2024-01-02T24", "x"})
 	}
 	return gen.Pick(r, paramValues)
 }
